@@ -17,7 +17,7 @@ LEVEL_TEXT = ("Post-condition monitor on process.trend / linear_trend / normaliz
               "add up, order and relative spacing preserved by normalise. Sampled, with abscissae of non-zero origin.")
 LEVEL_NOTE = ("Trend values are compared with one rounding of slack (1e-12 relative); shift / scale bit for bit; "
               "normalise at 1e-9 relative to the target range.")
-TECHNIQUE = "runtime post-condition monitor vs pointwise definitional oracle + additivity / order metamorphic runs"
+TECHNIQUE = "runtime post-condition monitor vs pointwise definitional oracle + additivity / order metamorphic runs; thread-isolation monitor (concurrent vs sequential answers, first-use rounds with sys.monitoring yield injection)"
 RULE = ("case = series 2..60 points with x of non-zero origin in >= 80% x trend family {polynomial to degree 3, sinusoid, "
         "constant, callable returning numpy scalar} x normalized flag, or shift / scale / normalise with random "
         "arguments, through functions (list / int / array containers) and through the Weaver. non-trivial: the map is "
